@@ -9,6 +9,13 @@
 (*   run B  action.Install as `helm template --include-crds` runs it: the    *)
 (*          instances that contributed a manifest document, a hook, a CRD, a *)
 (*          NOTES.txt, and whether the schema gate rejected and whom it named.*)
+(*   run C  (a seeded share of the cases) the history route: a real           *)
+(*          action.Install with the case's user values over the simulated    *)
+(*          cluster - which CRDs are in the cluster afterwards - and then     *)
+(*          action.Upgrade with NO values in the default, reuse-values,      *)
+(*          reset-then-reuse-values and reset-values modes: the instances in  *)
+(*          the new manifest, the hooks and the stored chart, judged against  *)
+(*          the values in force on that route (Deps!CaseFor).                 *)
 (* A failing check is excused only in the shape of a known finding, and then *)
 (* only if the observation equals what the code-shaped model predicts for    *)
 (* that shape (any other deviation in such a case is still a violation).     *)
@@ -47,6 +54,14 @@ Checks(o) ==
       SeenAsCode == Rend = EC /\ \A P \in Rend : SeenAt(P) = D!CodeScope(c, P)
       Crd(X) == {P \in X : c.charts[D!ChartAt(c, P)].crds}
       Bad(X) == {P \in X : D!SchemaOf(c, P) # <<>> /\ ~D!SchemaValid(D!SchemaOf(c, P), SeenAt(P))}
+      \* history route
+      RawC(X) == {D!RawPath(c, P) : P \in Crd(X)}
+      Want(cx, X) == IF X \in D!ExpEs(cx) THEN X ELSE D!ExpE(cx)
+      UpIs(u, W) == Rng(u.manifest) = W /\ Rng(u.hooks) = W /\ Rng(u.stored) = W
+      \* (an upgrade the schema gate rejected produced nothing to judge)
+      UpOK(u)     == u.schema \/ (u.ok /\ UpIs(u, Want(D!CaseFor(c, u.mode), Rng(u.manifest))))
+      UpAsCode(u) == u.schema \/ (u.ok /\ UpIs(u, D!EnabledCode(D!CaseFor(c, u.mode))))
+      Ups(modes)  == {u \in Rng(o.ups) : u.mode \in modes}
       en == EnShapes(c)
       sc == ScopeShapes(c)
       Chk(n, v, shapes, asCode) == [n |-> n, kind |-> "prop", v |-> v, kf |-> IF v THEN "" ELSE IF shapes # "" /\ asCode THEN shapes ELSE ""]
@@ -66,6 +81,16 @@ Checks(o) ==
     Chk("C11_Hooks",    o.bok => Rng(o.hooks) = E,    en, Rng(o.hooks) = EC),
     Chk("C11_Notes",    o.bok => Rng(o.notes) = E,    en, Rng(o.notes) = EC),
     Chk("C11_Crds",     o.bok => Rng(o.crds) = Crd(E), en, Rng(o.crds) = Crd(EC)),
+    \* real install: the CRDs of exactly the enabled instances reach the cluster (a rejected install may have sent fewer, never others)
+    Chk("C11_InstallCrds", o.hist => (Rng(o.icrds) \subseteq RawC(E) /\ (o.iok => Rng(o.icrds) = RawC(E))),
+        en, Rng(o.icrds) \subseteq RawC(EC) /\ (o.iok => Rng(o.icrds) = RawC(EC))),
+    Chk("C11_InstallManifest", o.hist => ((o.iok \/ o.ischema) /\ (o.iok => Rng(o.imanifest) = E)), en, o.iok /\ Rng(o.imanifest) = EC),
+    \* an upgrade without values: the carried-over values decide what is enabled ...
+    Chk("C11_UpgradeCarries", \A u \in Ups({"upgrade"}) : UpOK(u), en, \A u \in Ups({"upgrade"}) : UpAsCode(u)),
+    Chk("C11_UpgradeReuses", \A u \in Ups({"upgrade-reuse", "upgrade-reset-then-reuse"}) : UpOK(u), en,
+        \A u \in Ups({"upgrade-reuse", "upgrade-reset-then-reuse"}) : UpAsCode(u)),
+    \* ... and after reset-values the chart defaults alone
+    Chk("C11_UpgradeResets", \A u \in Ups({"upgrade-reset"}) : UpOK(u), en, \A u \in Ups({"upgrade-reset"}) : UpAsCode(u)),
     \* the template run fails only at the schema gate
     Chk("C11_TemplateRuns", o.bok \/ o.schemaErr, "", FALSE),
     [n |-> "NoStrayFiles", kind |-> "mach", v |-> o.stray = <<>>, kf |-> ""] >>
